@@ -24,6 +24,15 @@ CLAIMED = {
              'validated by TLC with the same operators.',
         design='4/C02',
         technique='TLA+ spec (GlomT) + TLC prefix-extension machine, replay into glom, TLC validation of recorded executions'),
+    'C14': dict(
+        text='The BFS law for * and ** (value itself, then descendants breadth-first, every container expanded exactly once, '
+             'misses after a wildcard dropped, one fresh list level per wildcard) is written in GlomT and checked by TLC with four '
+             'invariants over every 2-cell target graph (all sharing / self-cycle / mutual-cycle shapes) plus a hand-written family '
+             '(sets, tuples, strings, attribute objects, raising element access) x every path with >= 1 wildcard at every position; '
+             'every case is replayed into glom as text, Path and T spelling with identity-preserving comparison; random cyclic '
+             'graphs up to 12 cells with random wildcard paths are recorded from glom and validated by TLC.',
+        design='4/C14',
+        technique='TLA+ spec (GlomT BFS law) + TLC enumeration of graphs x paths, replay into glom, TLC validation of recorded executions'),
 }
 
 PENDING_REASON = 'check not built yet (planned: see DESIGN.md section 4); not claimed until both binding directions exist'
